@@ -1,6 +1,6 @@
 (* C17/Properties.v -- pinned statements of property C17.
    Strings are lists of UTF-8 bytes; [resolve] is the model of BaseIri::resolve (oxiri). *)
-From Sophia.C17 Require Import Model Proofs Rfc.
+From Sophia.C17 Require Import Model Proofs Rfc Deep DeepProofs.
 Local Open Scope nat_scope.
 
 (* (1) whenever relativize returns a reference, resolving it against the base gives back the IRI
@@ -86,6 +86,27 @@ Check (relativize_authority_differs_none : forall b n i p,
 (* the components oxiri reports for the base (read by Relativizer::new) recompose to the base *)
 Check (components_recompose : forall b p, positions_of b = Some p -> ox_recompose b p = b).
 
+(* (5) round 8: limits vs depth.  [steps_needed b i] counts, on the text of the base alone, the '/' of its path
+       (the leading one excepted) at or after the end of the longest common prefix with the IRI: the directories
+       a reference has to climb out of.  Whatever the limit (0 .. 255 and beyond) and however deep the base, a
+       limit below that number gives NOTHING -- never a reference with fewer steps that resolves elsewhere *)
+Check (relativize_beyond_reach : forall b n i, n < steps_needed b i -> relativize b n i = Ret None).
+Check (relativize_some_within_reach : forall b n i r, relativize b n i = Ret (Some r) -> steps_needed b i <= n).
+Check (reach_ok_model : forall b i n, reach_ok b i n (fst (res_code (relativize b (N.to_nat n) i))) = true).
+(* the collecting loop of Relativizer::new skips no slash *)
+Check (rel_loop_complete : forall P lo fuel k, k <= length P ->
+  let L := rel_loop fuel P k in
+  count_slashes_from (firstn k P) 0 lo <= length (filter (fun x => lo <=? x) L)
+  \/ (length L = fuel /\ forall x, In x L -> lo <= x)).
+
+(* (6) round 8: values with a history (new / clone / clone_from, nested at will).  The state is that of `new` on
+       the (base, limit) of the LAST source, so relativize answers as a fresh Relativizer would and (1) holds *)
+Check (history_irrelevant : forall h z, state h = Some z -> new (fst (origin h)) (snd (origin h)) = Some z).
+Check (relativize_hist_eq : forall h iri, hist_valid h = true ->
+  relativize_hist h iri = relativize (fst (origin h)) (snd (origin h)) iri).
+Check (relativize_hist_sound : forall h iri r, hist_valid h = true -> relativize_hist h iri = Ret (Some r) ->
+  resolve (fst (origin h)) r = Some iri /\ parents_of r <= snd (origin h)).
+
 (* non-vacuity: validity predicate and the unit-test table of relativize.rs *)
 Definition s_base1 : str := [104; 116; 116; 112; 58; 47; 47; 97; 47; 98; 47; 99; 47; 100; 63; 101; 35; 102; 63; 103]%N.  (* http://a/b/c/d?e#f?g *)
 Example ex_abs_iri : abs_iri s_base1 = true. Proof. reflexivity. Qed.
@@ -139,7 +160,36 @@ Example ex_components : components_ok s_base1 [104; 116; 116; 112]%N (Some [97]%
   /\ shares_root_ok s_base1 [104; 116; 116; 112; 58; 47; 47; 97; 47; 98; 47; 80; 49]%N 1 = true.
 Proof. split; vm_compute; reflexivity. Qed.
 
+(* s:/a/a/a/.../a/a (300 directories + document) against s:/a/x : 299 steps are needed; 255 give nothing *)
+Definition s_deep : str := [115; 58]%N ++ repeat_str [47; 97]%N 301.
+Example ex_deep_needed : steps_needed s_deep [115; 58; 47; 97; 47; 120]%N = 299.
+Proof. vm_compute. reflexivity. Qed.
+Example ex_deep_255 : relativize s_deep 255 [115; 58; 47; 97; 47; 120]%N = Ret None
+  /\ option_map (fun z => (length (z_slashes z), z_pseudoroot z)) (new s_deep 255) = Some (255, 93).
+Proof. split; vm_compute; reflexivity. Qed.
+(* the same base against an IRI 255 directories up: exactly 255 "../" *)
+Example ex_deep_exact : relativize s_deep 255 ([115; 58]%N ++ repeat_str [47; 97]%N 45 ++ [47; 120]%N)
+  = Ret (Some (repeat_str dotdot_slash 255 ++ [120]%N))
+  /\ steps_needed s_deep ([115; 58]%N ++ repeat_str [47; 97]%N 45 ++ [47; 120]%N) = 255.
+Proof. split; vm_compute; reflexivity. Qed.
+(* a value built for urn:x (no authority), re-targeted to http://a (authority, empty path): http://ab gets nothing *)
+Example ex_history :
+  let h := HCloneFrom (HNew [117; 114; 110; 58; 120]%N 0) (HClone (HNew [104; 116; 116; 112; 58; 47; 47; 97]%N 2)) in
+  hist_valid h = true /\ origin h = ([104; 116; 116; 112; 58; 47; 47; 97]%N, 2)
+  /\ relativize_hist h [104; 116; 116; 112; 58; 47; 47; 97; 98]%N = Ret None
+  /\ history_ok h [104; 116; 116; 112; 58; 47; 47; 97; 98]%N 0 [] = true
+  /\ reach_ok s_base1 [104; 116; 116; 112; 58; 47; 47; 97; 47; 98; 47; 80; 49]%N 0 0 = true
+  /\ reach_ok s_base1 [104; 116; 116; 112; 58; 47; 47; 97; 47; 98; 47; 80; 49]%N 0 1 = false.
+Proof. repeat split; vm_compute; reflexivity. Qed.
+
 Print Assumptions relativize_sound.
+Print Assumptions relativize_beyond_reach.
+Print Assumptions relativize_some_within_reach.
+Print Assumptions reach_ok_model.
+Print Assumptions rel_loop_complete.
+Print Assumptions history_irrelevant.
+Print Assumptions relativize_hist_eq.
+Print Assumptions relativize_hist_sound.
 Print Assumptions relativize_same_path_noquery.
 Print Assumptions relativize_no_panic.
 Print Assumptions relativize_same_path_query_some.
